@@ -186,9 +186,9 @@ Proof.
   assert (Hsid : sn_id s = p_id p) by reflexivity.
   set (cleanup := negb match completed (w_store w) with [] => true | _ :: _ => false end).
   set (files1 := s :: without [sn_id s] (w_files w)).
-  set (files2 := if cleanup then without (ids_of (completed (w_store w))) files1 else files1).
+  set (files2 := if cleanup && negb (w_lose w) then without (ids_of (completed (w_store w))) files1 else files1).
   assert (Hf2 : exists Y, files2 = s :: Y /\ forall y, In y Y -> In y (w_files w)).
-  { unfold files2. destruct cleanup.
+  { unfold files2. destruct (cleanup && negb (w_lose w)).
     - unfold files1, without at 1. cbn [filter].
       assert (E : existsb (N.eqb (sn_id s)) (ids_of (completed (w_store w))) = false).
       { apply existsb_false. intros x Hx. unfold ids_of in Hx. apply in_map_iff in Hx.
@@ -236,7 +236,7 @@ Lemma create_ok w m ops srs sp :
   let st := w_store w in
   let id := ckpt_id st + 1 in
   snd (mon_create m id ops srs) = [] /\
-  Inv (MkWorld (MkStore (completed st) (Some (new_pending id ops srs sp)) id) (w_files w)) (fst (mon_create m id ops srs)).
+  Inv (MkWorld (MkStore (completed st) (Some (new_pending id ops srs sp)) id) (w_files w) (w_lose w)) (fst (mon_create m id ops srs)).
 Proof.
   intros (I1 & I2 & I3 & I4 & I5 & I6) Hp st id.
   unfold bnd in I3, I4, I5. rewrite Hp in *.
@@ -289,7 +289,7 @@ Proof. tauto. Qed.
 Theorem step_preserves w m a : Inv w m -> step_good w m a.
 Proof.
   intros HI. unfold step_good.
-  destruct a as [ops srs|ops srs|cid op pl|cid sr sts|].
+  destruct a as [ops srs|ops srs|cid op pl|cid sr sts| |b].
   - (* CreateCheckpoint *)
     unfold step. destruct (pend (w_store w)) as [p|] eqn:Ep.
     + cbn [fst snd mon_step]. split; [reflexivity|exact HI].
@@ -437,6 +437,8 @@ Proof.
       split. { exact G1. }
       split. { intros x [Hx|[]]. subst. lia. }
       split; assumption.
+  - (* fault injection: Remove calls get lost from now on *)
+    unfold step. cbn [fst snd mon_step]. split; [reflexivity|exact HI].
 Qed.
 
 Theorem run_accepted : forall acts w m, Inv w m -> mon_run m (combine acts (run repaired w acts)) = [].
